@@ -129,3 +129,45 @@ Theorem c09_no_cross_tube_live_partial : forall (server : bool) (ops : list mop)
   (rel <> mf_rel f \/ id <> mf_id f) -> get_tube (demux m f) rel id = get_tube m rel id.
 Proof. intros. apply demux_spec. assumption. Qed.
 Print Assumptions c09_no_cross_tube_live_partial.
+
+(* ---- totality and locality of the muxer's receive step (also backs C11's clause "a bad frame for one tube
+   never crashes the muxer or disturbs its other tubes").
+   c09_demux_total: in ANY muxer state, for ANY decoded frame whose payload is at most 65523 bytes — all that the
+   repaired fromBytes can produce from the muxer's 65535-byte read buffer — the receive step does not panic (the
+   only slice expression on that path, fromInitiateBytes' b[10:10+dataLength] on the re-encoded frame with its
+   uint16 addition, is in bounds), and it keeps every reachable state well-formed (unique live ids, bounded
+   Accept queue).  The tube-level handlers it calls are total in the models: receiver.receive (Model/Recv.v) has
+   no failing operation, and sender.recvAck returns an error instead of indexing an empty buffer (Model/Send.v,
+   after group wire's repair). *)
+Theorem c09_demux_total : forall (m : mux) (f : mframe),
+  len (mf_data f) <= max_wire_payload ->
+  demux_res m f = Ok (demux m f) /\ (MInv m -> MInv (demux m f)).
+Proof. intros m f H. split. apply demux_total; auto. apply demux_spec. Qed.
+Print Assumptions c09_demux_total.
+
+(* the bound is what makes it total: a payload of 65530 bytes (which fromBytes cannot deliver) would wrap the
+   uint16 addition and panic *)
+Example c09_demux_res_can_panic :
+  demux_res (mux_new true) {| mf_id := 1; mf_req := false; mf_resp := false; mf_rel := true; mf_ack := false;
+                              mf_fin := false; mf_rtr := false; mf_ackno := 0; mf_no := 1;
+                              mf_data := repeat 0 (N.to_nat 65530) |} = Panic.
+Proof. vm_compute. reflexivity. Qed.
+
+(* c09_demux_local: a frame addressed to (rel, id) leaves every other tube exactly as it was — same state, same
+   receiver, same queued messages, same instance — and touches the Accept queue only by appending the one tube a
+   REQ for an unknown (rel, id) creates.  So the muxer keeps serving its other tubes whatever arrives. *)
+Theorem c09_demux_local : forall (m : mux) (f : mframe),
+  (forall rel id, (rel <> mf_rel f \/ id <> mf_id f) -> get_tube (demux m f) rel id = get_tube m rel id) /\
+  (m_queue (demux m f) = m_queue m \/
+   exists t, m_queue (demux m f) = m_queue m ++ [t] /\ t_rel t = mf_rel f /\ t_id t = mf_id f /\
+             get_tube m (mf_rel f) (mf_id f) = None /\ mf_req f = true).
+Proof.
+  intros m f. destruct (demux_spec m f) as (A & B & C & _). split; [exact A|].
+  destruct (get_tube m (mf_rel f) (mf_id f)) as [t|] eqn:G.
+  - left. apply (B t eq_refl).
+  - specialize (C eq_refl). destruct (mf_req f && m_running m && negb (queue_full m)) eqn:E.
+    + right. destruct C as [_ Q]. eexists. split; [exact Q|]. cbn. repeat split; auto;
+      try (destruct (mf_req f); [reflexivity|discriminate]).
+    + left. rewrite C. reflexivity.
+Qed.
+Print Assumptions c09_demux_local.
